@@ -139,6 +139,7 @@ def run_case(ns, rec, chunks, plans, trailing_break, prelude=()):
     starts.append(len(out))  # where a chunk after the last one would start
     r = ns.EoReader(whole).slice(skip) if prelude else ns.EoReader(out)
     r.chunked_reading_mode = True
+    mistyped = {}
     try:
         for ci, (fields, (k, extra)) in enumerate(zip(chunks, plans)):
             if r.position != starts[ci]:
@@ -161,6 +162,10 @@ def run_case(ns, rec, chunks, plans, trailing_break, prelude=()):
                     return
             for op in extra:
                 got = getattr(r, op[0])(*op[1:])
+                if k != len(fields):
+                    # what a mistyped read returns is decided by this chunk alone: a reader that sees nothing but this
+                    # chunk (and has read nothing before) is asked the same questions below
+                    mistyped.setdefault(ci, []).append((op, bytes(got) if isinstance(got, bytearray) else got))
                 if k == len(fields):
                     rec.count("surplus-reads-checked")
                     if got not in (0, "", bytearray()):
@@ -181,5 +186,24 @@ def run_case(ns, rec, chunks, plans, trailing_break, prelude=()):
                 return
         if r.remaining != 0:
             rec.violation("chunk-start-shifted", "data left after the last chunk: remaining=%d" % r.remaining, case)
+        for ci, seen in mistyped.items():
+            fields, (k, extra) = chunks[ci], plans[ci]
+            brk = starts[ci + 1] - 1 if (ci < len(chunks) - 1 or trailing_break) else len(out)
+            alone = ns.EoReader(out[starts[ci]:brk])
+            alone.chunked_reading_mode = True
+            for f in fields[:k]:
+                if f[0] == "int":
+                    getattr(alone, "get_" + f[1])()
+                elif f[2]:
+                    (alone.get_encoded_string if f[1] else alone.get_string)()
+                else:
+                    (alone.get_fixed_encoded_string if f[1] else alone.get_fixed_string)(len(f[3]))
+            for op, got in seen:
+                want = getattr(alone, op[0])(*op[1:])
+                want = bytes(want) if isinstance(want, bytearray) else want
+                rec.count("mistyped-reads-compared-with-chunk-read-alone")
+                if got != want or type(got) is not type(want):
+                    rec.violation("chunk-read-depends-on-other-chunks", "chunk %d: mistyped read %r returned %r after the earlier chunks were consumed, %r when the chunk is read on its own" % (ci, op, got, want), case)
+                    return
     except Exception as ex:
         rec.violation("read-raises", "reading chunks raised %r" % ex, case)
